@@ -150,7 +150,7 @@ func runC19(c *Ctx, r *Rec) {
 		}
 	}
 	r.count("registries", nreg)
-	r.floor("D1-registry-lock", 11)
+	r.floor("D1-registry-lock", 3)
 
 	// ---- D2 shared mutable state
 	allow := func(t types.Type) bool {
@@ -181,7 +181,7 @@ func runC19(c *Ctx, r *Rec) {
 		}
 	}
 	r.count("shared roots", len(roots))
-	r.floor("D2-shared-mutable", 30)
+	r.floor("D2-shared-mutable", 5)
 	checkClassStateHandedOut(c, r, "D2-instances-share-nothing")
 
 	// ---- D3 write-once package variables
@@ -213,7 +213,7 @@ func runC19(c *Ctx, r *Rec) {
 			r.check(bad == "", "D3-write-once", role+"."+v.Name(), c.pos(v.Pos()), "only initialised by its declaration", "the package-level variable is "+bad+": every goroutine shares it")
 		}
 	}
-	r.floor("D3-write-once", 25)
+	r.floor("D3-write-once", 1)
 }
 
 // witnessOfPath: the terminal type of a reachability path (stable key for known findings).
